@@ -58,9 +58,11 @@ def run(index, tier="quick", seed=0) -> Result:
                     continue
                 # deprecated alias?
                 src = ast.unparse(p.getter.node)
-                m = re.search(r"return self\.(\w+)\s*$", src)
-                if "DeprecationWarning" in src and m and (m.group(1) in decl):
-                    res.ok("API-1", k, sample={"alias": k, "delegates_to": m.group(1)})
+                from ..astutil import returns as _returns
+                targets = {rv.attr for (_r, rv) in _returns(p.getter.node)
+                           if isinstance(rv, ast.Attribute) and isinstance(rv.value, ast.Name) and rv.value.id == "self"}
+                if "DeprecationWarning" in src and len(targets) == 1 and (next(iter(targets)) in decl):
+                    res.ok("API-1", k, sample={"alias": k, "delegates_to": next(iter(targets))})
                 else:
                     res.bad("API-1", k, f"{p.getter.file}:{p.getter.lineno}",
                             f"{k} is not one of the ball properties declared by {base} ({sorted(decl)}) nor a deprecated alias: "
@@ -210,4 +212,49 @@ def run(index, tier="quick", seed=0) -> Result:
         raise AnalysisError(f"only {nballs} ball properties enumerated (>= 20 confirmed)")
     from ..parallel import report as _copy1
     _copy1(res, index, lambda f: f['top'] in ('circumsphere', 'insphere', 'circumcircle', 'incircle', 'minimal_bounding_sphere', 'minimal_bounding_circle', 'minimal_centered_bounding_circle', 'maximal_centered_bounded_circle', 'minimal_centered_bounding_sphere', 'maximal_centered_bounded_sphere'))
+    _undo(res, index)
     return res
+
+
+def _undo(res, index):
+    """UNDO-1: a retry loop that re-rotates the already rotated vertices (`V = rotate(R, V)` with a fresh R per
+    iteration) has applied the composition of all R's; undoing only the last one (`rotate(conjugate(R), centre)` after
+    the loop) leaves the centre in a rotated frame whenever two retries were needed.  Structural, names are free:
+    loop-carried target among the arguments, transform argument assigned in the same loop, inverse of that argument used
+    after the loop."""
+    n = 0
+    for cls in index.shape_classes():
+        for name, p in cls.props.items():
+            if not BALLISH.search(name) or p.getter is None:
+                continue
+            fn = p.getter
+            for loop in [x for x in ast.walk(fn.node) if isinstance(x, (ast.While, ast.For))]:
+                assigned_in_loop = {}
+                for a in ast.walk(loop):
+                    if isinstance(a, ast.Assign) and len(a.targets) == 1 and isinstance(a.targets[0], ast.Name):
+                        assigned_in_loop.setdefault(a.targets[0].id, []).append(a)
+                for x, assigns in assigned_in_loop.items():
+                    for a in assigns:
+                        if not isinstance(a.value, ast.Call):
+                            continue
+                        argnames = [y.id for arg in a.value.args for y in ast.walk(arg) if isinstance(y, ast.Name)]
+                        if x not in argnames:
+                            continue          # not loop-carried
+                        callee = ast.unparse(a.value.func)
+                        if not (callee.endswith("rotate") or callee in ("np.dot", "np.matmul")):
+                            continue
+                        n += 1
+                        fresh = [r for r in argnames if r != x and r in assigned_in_loop
+                                 and not any(r in {y.id for y in ast.walk(b.value) if isinstance(y, ast.Name)} for b in assigned_in_loop[r])]
+                        after = [y for y in ast.walk(fn.node) if isinstance(y, ast.Call) and getattr(y, "lineno", 0) > loop.end_lineno
+                                 and ast.unparse(y.func).endswith(("conjugate", "inverse"))
+                                 and any(isinstance(z, ast.Name) and z.id in fresh for arg in y.args for z in ast.walk(arg))]
+                        k = f"{cls.name}.{name}:retry-rotation"
+                        if fresh and after:
+                            res.bad("UNDO-1", k, f"{fn.file}:{a.lineno}", f"{cls.name}.{name}: every retry rotates the already rotated vertices "
+                                    f"(`{ast.unparse(a)[:60]}`) with a fresh random rotation, but only the last rotation is undone after the loop "
+                                    f"(`{ast.unparse(after[0])[:50]}`): after two retries the returned centre is in a rotated frame and the ball "
+                                    "does not contain the shape")
+                        else:
+                            res.ok("UNDO-1", k)
+    res.extra["undo_sites"] = n
